@@ -200,7 +200,7 @@ def run(prop, tier, family="close"):
             if sim:
                 lines = [l for l in lines if len(l["h"]) == ms or l["fin"] != "run"]
             rend = [render(l, ms, battery) for l in lines]
-            cases = [{"id": i, "src": rend[i][0], "timeout": 8000} for i, l in enumerate(lines)]
+            cases = [{"id": i, "src": rend[i][0], "timeout": 30000} for i, l in enumerate(lines)]
             outs = run_lua_cases(drv, cases)
             if not state["first"]:
                 state["first"] = (lines[:], cases[:])
